@@ -33,5 +33,5 @@ Separate Extraction Levenshtein.lev_check Levenshtein.dist LevFaithful.lev
   TokenBuffer.all_tokens TokenBuffer.tokens_check TokenBuffer.token_triple TokenBuffer.matches_ok TokenStream.parser_input
   LLTerm.rank_ok LLTerm.find_cert LLTerm.left_recursion_free
   LROptions.lr_run_opts LROptions.lr_run_peak LROptions.lr_default_options
-  LRTerm.acyclic_ok LRTerm.stack_rank_ok LRTerm.find_acyclic_cert LRTerm.find_stack_ranks
+  LRTerm.acyclic_ok LRTerm.stack_rank_ok LRTerm.find_acyclic_cert LRTerm.find_stack_ranks LRTerm.find_eps_set LRTerm.eps_closed
   AstModel.build_ast AstModel.attrs_ok AstModel.user_ok AstModel.tokens_of AstModel.call_names.
